@@ -119,83 +119,94 @@ pub trait G<X> {
 }
 
 // ---------------------------------------------------------------- delegation / unmocking inventory (C15, C16)
-use std::pin::Pin;
-use std::rc::Rc;
-use std::sync::Arc;
+// Behind the cargo feature `dtrait`: its unmock_with list mixes signatures, so a macro change that shifts the
+// association of list entries would stop this trait from compiling; the crates that do not need it (trait T only)
+// keep building and can show a concrete failing call instead.
+#[cfg(feature = "dtrait")]
+pub use dtrait::*;
 
-/// the common default body: a % 4 required-method calls, alternating r0 / r1, arguments a, a+1, ..
-fn body<D1: D + ?Sized>(d: &D1, name: &str, a: u8) -> Val {
-    user_panic_if_armed(2, "user:dflt");
-    let mut parts = vec![];
-    for j in 0..(a % 4) {
-        let arg = (a + j) % 8;
-        parts.push(if j % 2 == 0 { d.r0(arg).take() } else { d.r1(arg).take() });
-    }
-    Val::new(format!("{name}({a})[{}]", parts.join(",")))
-}
+#[cfg(feature = "dtrait")]
+mod dtrait {
+    use super::*;
+    use std::pin::Pin;
+    use std::rc::Rc;
+    use std::sync::Arc;
 
-#[unimock(api=DMock, unmock_with=[real_r0, _, real_u2(b, a), real_u3, _, _, _, _, _, _, real_mm, _, _, _])]
-pub trait D {
-    fn r0(&self, a: u8) -> Val;
-    fn r1(&self, a: u8) -> Val;
-    fn u2(&self, a: u8, b: u8) -> Val;
-    fn u3(&self, a: u8, b: u8) -> Val;
-    fn p_ref(&self, a: u8) -> Val {
-        body(self, "dflt14", a)
+    /// the common default body: a % 4 required-method calls, alternating r0 / r1, arguments a, a+1, ..
+    fn body<D1: D + ?Sized>(d: &D1, name: &str, a: u8) -> Val {
+        user_panic_if_armed(2, "user:dflt");
+        let mut parts = vec![];
+        for j in 0..(a % 4) {
+            let arg = (a + j) % 8;
+            parts.push(if j % 2 == 0 { d.r0(arg).take() } else { d.r1(arg).take() });
+        }
+        Val::new(format!("{name}({a})[{}]", parts.join(",")))
     }
-    fn p_mut(&mut self, a: u8) -> Val {
-        body(self, "dflt15", a)
-    }
-    fn p_val(self, a: u8) -> Val
-    where
-        Self: Sized,
-    {
-        body(&self, "dflt16", a)
-    }
-    fn p_rc(self: Rc<Self>, a: u8) -> Val {
-        body(&*self, "dflt17", a)
-    }
-    fn p_arc(self: Arc<Self>, a: u8) -> Val {
-        body(&*self, "dflt18", a)
-    }
-    fn p_pin(self: Pin<&mut Self>, a: u8) -> Val {
-        body(&*self, "dflt19", a)
-    }
-    fn m_mut(&mut self, a: u8) -> Val;
-    /// required method with an Rc receiver ...
-    fn r_rc(self: Rc<Self>, a: u8) -> Val;
-    /// ... called (consuming the pointer) from a provided method with the same receiver
-    fn p_rc2(self: Rc<Self>, a: u8) -> Val {
-        Val::new(format!("dflt24({a})[{}]", self.r_rc(a).take()))
-    }
-    /// skipped by the macro, but occupies an unmock_with slot (last, so that nothing in this trait
-    /// depends on how slots after a skipped function are counted; trait T covers that)
-    fn assoc_d() -> u8
-    where
-        Self: Sized,
-    {
-        1
-    }
-}
 
-pub fn real_r0(_: &impl D, a: u8) -> Val {
-    user_panic_if_armed(1, "user:real");
-    Val::new(format!("real10({a})"))
-}
-/// registered as `real_u2(b, a)`: explicit parameter expressions, no mock argument
-pub fn real_u2(x: u8, y: u8) -> Val {
-    user_panic_if_armed(1, "user:real");
-    Val::new(format!("real12({x},{y})"))
-}
-/// recursion through the mock: depth a
-pub fn real_u3(d: &impl D, a: u8, b: u8) -> Val {
-    user_panic_if_armed(1, "user:real");
-    if a == 0 {
-        Val::new(format!("base({b})"))
-    } else {
-        Val::new(format!("rec({})", d.u3(a - 1, b).take()))
+    #[unimock(api=DMock, unmock_with=[real_r0, _, real_u2(b, a), real_u3, _, _, _, _, _, _, real_mm, _, _, _])]
+    pub trait D {
+        fn r0(&self, a: u8) -> Val;
+        fn r1(&self, a: u8) -> Val;
+        fn u2(&self, a: u8, b: u8) -> Val;
+        fn u3(&self, a: u8, b: u8) -> Val;
+        fn p_ref(&self, a: u8) -> Val {
+            body(self, "dflt14", a)
+        }
+        fn p_mut(&mut self, a: u8) -> Val {
+            body(self, "dflt15", a)
+        }
+        fn p_val(self, a: u8) -> Val
+        where
+            Self: Sized,
+        {
+            body(&self, "dflt16", a)
+        }
+        fn p_rc(self: Rc<Self>, a: u8) -> Val {
+            body(&*self, "dflt17", a)
+        }
+        fn p_arc(self: Arc<Self>, a: u8) -> Val {
+            body(&*self, "dflt18", a)
+        }
+        fn p_pin(self: Pin<&mut Self>, a: u8) -> Val {
+            body(&*self, "dflt19", a)
+        }
+        fn m_mut(&mut self, a: u8) -> Val;
+        /// required method with an Rc receiver ...
+        fn r_rc(self: Rc<Self>, a: u8) -> Val;
+        /// ... called (consuming the pointer) from a provided method with the same receiver
+        fn p_rc2(self: Rc<Self>, a: u8) -> Val {
+            Val::new(format!("dflt24({a})[{}]", self.r_rc(a).take()))
+        }
+        /// skipped by the macro, but occupies an unmock_with slot (last, so that nothing in this trait
+        /// depends on how slots after a skipped function are counted; trait T covers that)
+        fn assoc_d() -> u8
+        where
+            Self: Sized,
+        {
+            1
+        }
     }
-}
-pub fn real_mm(_: &mut impl D, a: u8) -> Val {
-    Val::new(format!("real20({a})"))
+
+    pub fn real_r0(_: &impl D, a: u8) -> Val {
+        user_panic_if_armed(1, "user:real");
+        Val::new(format!("real10({a})"))
+    }
+    /// registered as `real_u2(b, a)`: explicit parameter expressions, no mock argument
+    pub fn real_u2(x: u8, y: u8) -> Val {
+        user_panic_if_armed(1, "user:real");
+        Val::new(format!("real12({x},{y})"))
+    }
+    /// recursion through the mock: depth a
+    pub fn real_u3(d: &impl D, a: u8, b: u8) -> Val {
+        user_panic_if_armed(1, "user:real");
+        if a == 0 {
+            Val::new(format!("base({b})"))
+        } else {
+            Val::new(format!("rec({})", d.u3(a - 1, b).take()))
+        }
+    }
+    pub fn real_mm(_: &mut impl D, a: u8) -> Val {
+        Val::new(format!("real20({a})"))
+    }
+
 }
